@@ -4,6 +4,7 @@ document.  Proof = composition of C10's round trip (Props/C09.lean); corresponde
 vs ide-level results converted by the reference position mapper (itself checked against the Lean
 LineIndex model)."""
 import json
+import re
 import urllib.parse
 
 from .. import core
@@ -172,6 +173,20 @@ def run(ck):
             script.append(["req", rid, "inlayHint", rel, 0, 0, el, ec])
             reqs.append((rid, "inlayHint", p, per[p]))
             rid += 1
+            # ... and for a range that starts in the middle of one line and ends near the start of a later one (a forward range
+            # whose end column is smaller than its start column)
+            tb = w[rel].encode()
+            starts = [0] + [m.end() for m in re.finditer(rb"\r\n|\n|\r", tb)]
+            hpos = {h[0] for h in (per[p]["hints"] or [])}
+            cand_a = [st + 3 for k_, st in enumerate(starts[:-1]) if starts[k_ + 1] - st >= 6 and tb[st:st + 3].isascii() and (st + 3) not in hpos]
+            cand_b = [st + 1 for st in starts if st + 1 < len(tb) and tb[st:st + 1].isascii() and tb[st:st + 1] not in (b"\r", b"\n") and (st + 1) not in hpos]
+            if cand_a and cand_b and cand_b[-1] > cand_a[0]:
+                a_, b_ = cand_a[0], cand_b[-1]
+                (al, ac), (bl, bc) = to_pos(w[rel], a_), to_pos(w[rel], b_)
+                if bl > al and bc < ac:
+                    script.append(["req", rid, "inlayHint", rel, al, ac, bl, bc])
+                    reqs.append((rid, "inlayHintSub", p, (per[p], a_, b_)))
+                    rid += 1
         lines.append("srv " + json.dumps({"dir": d, "disk": {k: v for k, v in w.items() if k != "main.td"}, "script": script, "timeout_ms": 10000, **({"caps": "full"} if len(script) % 2 else {})}))
         metas.append((w, diags, reqs, d))
     res = core.impl(lines, timeout=300, jobs=8, tag="s09")
@@ -212,6 +227,11 @@ def run(ck):
             elif kind == "documentLink":
                 want = None if exp["links"] is None else [{"range": rng_json(w[p[3:]], a, b), "target": uri(t)} for a, b, t in exp["links"]]
                 got = None if got is None else [{"range": g["range"], "target": g.get("target")} for g in got]
+            elif kind == "inlayHintSub":
+                hs, a_, b_ = exp
+                want = sorted(({"position": dict(zip(("line", "character"), to_pos(w[p[3:]], h[0]))), "label": h[1]} for h in (hs["hints"] or []) if a_ < h[0] < b_),
+                              key=lambda x: json.dumps(x, sort_keys=True))
+                got = sorted(({"position": g["position"], "label": g["label"]} for g in (got or [])), key=lambda x: json.dumps(x, sort_keys=True))
             else:
                 want = None if exp["hints"] is None else sorted(({"position": dict(zip(("line", "character"), to_pos(w[p[3:]], h[0]))), "label": h[1]} for h in exp["hints"]), key=lambda x: json.dumps(x, sort_keys=True))
                 got = None if got is None else sorted(({"position": g["position"], "label": g["label"]} for g in got), key=lambda x: json.dumps(x, sort_keys=True))
